@@ -161,7 +161,7 @@ PROPS = {
         "assumptions": COMMON_ASSUME + ["formatters are harness stubs (name=, S/N/J+value)", "sort.Strings/sort.Search executed from real SSA; sort.Slice = insertion sort driven by the real less closure", "strconv.Quote and fmt.Fprint are stubs"],
     },
     "C18": {
-        "groups": [{"name": "hlog", "tags": "verif", "run": "^VH_C18_",
+        "groups": [{"name": "hlog", "tags": "verif", "run": "^VH_C18_", "flags": {"no-stub": "net/url"},
                     "quick": {"params": "ops=3"}, "thorough": {"params": "ops=5", "harness-timeout": 3000, "max-paths": 5000000}}],
         "cross_solver": {"run": "^VH_C18_(access|isolation)$"},
         "level": "model_checking", "engine_only_msgs": "never writes into",
